@@ -53,8 +53,13 @@ def _case(draw, gs):
     doms = []
     for k in range(nd):
         # bias: experiments on (a subset of) the target interventions, surrogate outcomes among ancestors of Y / Y itself
-        if draw(st.integers(0, 2)) > 0:
+        zmode = draw(st.integers(0, 3))
+        others = [n for n in nodes if n not in part["X"] and n not in part["Y"]]
+        if zmode <= 1:
             z = draw(gen.subsets(part["X"], 1, len(part["X"])))
+        elif zmode == 2 and others:
+            # an experiment that overlaps the target interventions but also fixes something else
+            z = sorted(set(draw(gen.subsets(part["X"], 1, len(part["X"])))) | set(draw(gen.subsets(others, 1, len(others)))))
         else:
             z = draw(gen.subsets(nodes, 1, max(1, len(nodes) - 1)))
         rest = [n for n in nodes if n not in z]
